@@ -321,6 +321,71 @@ inductive SCall where
 /-- `GetTailEvents() > 0` (server.go:330/372): a non-positive tail is ignored -/
 def tailOf (t : Int) : Nat := if t > 0 then t.toNat else 0
 
+/-! ### the watch plumbing decisions as rules
+
+Three decisions about a watch are taken outside the wrapped state, each at ONE place of the
+source: which kind of watch the server starts for a request (server.go:323: on the PRESENCE of the
+optional `id` field, never on its value — the empty string is a legal resource ID), which
+`ApiVersion` the client's three watch methods announce (client.go:459/:513/:568 — `mapEvent`
+withholds Bootstrapped and Errored from a client that announces less than 1), and whether the
+methods put the `id` field on the wire (client.go:453). They are the parameters `WatchRules` of the
+functions below; `genWatchRules` instantiates them from the regenerated facts, fail closed. -/
+
+structure WatchRules where
+  /-- server Watch: is a request with this `id` field served by WatchKind / WatchKindAggregated? -/
+  servesKind : Option String → Bool
+  /-- client: the ApiVersion the method announces -/
+  apiVersion : WatchCall → Int
+  /-- client: the `id` field of the method's request for a target with this ID (`none` = not on the wire) -/
+  idField : WatchCall → String → Option String
+
+/-- what the code is meant to implement -/
+def goodWatchRules : WatchRules :=
+  { servesKind := fun id => id.isNone,
+    apiVersion := fun _ => 1,
+    idField := fun c id => if c = .watch then some id else none }
+
+/-- the rules of the CURRENT source text. Unrecognised dispatch ⇒ everything is served as a kind
+    watch; unrecognised request literal ⇒ ApiVersion -1, no id. -/
+def genWatchRules : WatchRules :=
+  { servesKind := fun id =>
+      match Gen.Grpc.watchDispatch with
+      | .idAbsent => id.isNone
+      | .idEmpty => id.getD "" == ""
+      | .unknown => true,
+    apiVersion := Gen.Grpc.cliApiVersion,
+    idField := fun c id =>
+      match Gen.Grpc.cliIdField c with
+      | .pointerId => some id
+      | .absent => none
+      | .unknown => none }
+
+/-- the adapter method behind a watch of this kind -/
+def callOf : WKind → WatchCall
+  | .single _ => .watch
+  | .kind => .watchKind
+  | .agg => .watchKindAggregated
+
+/-- the Watch handler before the wrapped call (server.go:314-389): `r.servesKind` is the condition of
+    the `if` at :323; the else-branch watches `req.GetId()` (the empty string when the field is absent) -/
+def srvDecodeWatch (r : WatchRules) (ns typ : String) (id : Option String) (opts : Option WWatchOpts) : SCall :=
+  if opts.isNone && (Gen.Grpc.derefUnchecked .watch).contains .options then .early .panic else
+  let o := opts.getD {}
+  if r.servesKind id then
+    match srvQueries o.labelQuery with
+    | .error e => .early e
+    | .ok qs =>
+      match srvIdQuery o.idQuery with
+      | .error e => .early e
+      | .ok idq =>
+        .watch ns typ (if o.aggregated then .agg else .kind) qs idq
+          { bootstrap := o.bootstrapContents, bootstrapBookmark := o.bootstrapBookmark,
+            tail := tailOf o.tail, bookmark := o.bookmark }
+  else
+    if o.bootstrapContents then .early (.err .unimplemented)
+    else if !o.labelQuery.isEmpty then .early (.err .unimplemented)
+    else .watch ns typ (.single (id.getD "")) [] none { tail := tailOf o.tail, bookmark := o.bookmark }
+
 /-- the part of every handler before the wrapped call, in source order of the checks -/
 def srvDecode : WReq → SCall
   | .get ns typ id _ => .op .get (.get ns typ id)
@@ -367,24 +432,7 @@ def srvDecode : WReq → SCall
   | .teardownAndDestroy ns typ id opts =>
     if opts.isNone && (Gen.Grpc.derefUnchecked .teardownAndDestroy).contains .options then .early .panic
     else .tad ns typ id (srvOwner .teardownAndDestroy opts)
-  | .watch ns typ id opts _ =>
-    if opts.isNone && (Gen.Grpc.derefUnchecked .watch).contains .options then .early .panic else
-    let o := opts.getD {}
-    match id with
-    | none =>
-      match srvQueries o.labelQuery with
-      | .error e => .early e
-      | .ok qs =>
-        match srvIdQuery o.idQuery with
-        | .error e => .early e
-        | .ok idq =>
-          .watch ns typ (if o.aggregated then .agg else .kind) qs idq
-            { bootstrap := o.bootstrapContents, bootstrapBookmark := o.bootstrapBookmark,
-              tail := tailOf o.tail, bookmark := o.bookmark }
-    | some id =>
-      if o.bootstrapContents then .early (.err .unimplemented)
-      else if !o.labelQuery.isEmpty then .early (.err .unimplemented)
-      else .watch ns typ (.single id) [] none { tail := tailOf o.tail, bookmark := o.bookmark }
+  | .watch ns typ id opts _ => srvDecodeWatch genWatchRules ns typ id opts
 
 /-! ### server: responses -/
 
@@ -626,6 +674,15 @@ def wireEvent (e : Event) : Event :=
   | some e' => e'
   | none => erroredEvent
 
+/-- what the subscriber of a watch started through adapter method `c` receives for the state's
+    event `e`: `none` = NOTHING (the server's `mapEvent` withheld it for the ApiVersion the method
+    announced); an event that fails to decode becomes the adapter's own `Errored` -/
+def wireDeliverWith (r : WatchRules) (c : WatchCall) (e : Event) : Option Event :=
+  (mapEvent (r.apiVersion c) e).map fun w => (cliEvent w).getD erroredEvent
+
+/-- … for the current source text -/
+def wireDeliver : WatchCall → Event → Option Event := wireDeliverWith genWatchRules
+
 /-! ### helpers run against a state, directly or through the wire -/
 
 /-- how a helper's atomic actions reach the state -/
@@ -858,7 +915,7 @@ def watchStartErr (c : Code) : ErrClass := cliDecode .watch c
 
 /-- the WatchRequest of `Watch` / `WatchKind` / `WatchKindAggregated` for the options the
     harness uses (one optional `k = v` label term) -/
-def watchRequest (ns typ : String) (kind : WKind) (sel : Option (String × String)) (o : StartOpts) : WReq :=
+def watchRequestWith (r : WatchRules) (ns typ : String) (kind : WKind) (sel : Option (String × String)) (o : StartOpts) : WReq :=
   let lq : List (List WTermX) := match sel with
     | none => []
     | some (k, v) =>
@@ -866,10 +923,13 @@ def watchRequest (ns typ : String) (kind : WKind) (sel : Option (String × Strin
       | .ok wqs => wqs.map (·.map wtermX)
       | _ => [[⟨k, [v], none, false⟩]]
   match kind with
-  | .single id => .watch ns typ (some id) (some { tail := o.tail, bookmark := o.bookmark }) 1
-  | k => .watch ns typ none
+  | .single id => .watch ns typ (r.idField .watch id) (some { tail := o.tail, bookmark := o.bookmark }) (r.apiVersion .watch)
+  | k => .watch ns typ (r.idField (callOf k) "")
       (some { bootstrapContents := o.bootstrap, bootstrapBookmark := o.bootstrapBookmark, aggregated := k == .agg,
-              tail := o.tail, bookmark := o.bookmark, labelQuery := lq }) 1
+              tail := o.tail, bookmark := o.bookmark, labelQuery := lq }) (r.apiVersion (callOf k))
+
+/-- … as the current source text builds it -/
+def watchRequest : String → String → WKind → Option (String × String) → StartOpts → WReq := watchRequestWith genWatchRules
 
 /-- start a watch through the adapter: `none` = it runs -/
 def RSys.startWatch (s : RSys) (wid now : Nat) (ns typ : String) (kind : WKind) (sel : Option (String × String))
